@@ -125,6 +125,9 @@ struct DepsLog {
   std::vector<Deps*> deps_;
 
   friend struct DepsLogTest;
+#ifdef NINJA_VERIF
+  friend struct VerifAccess;
+#endif
 };
 
 #endif  // NINJA_DEPS_LOG_H_
